@@ -533,7 +533,12 @@ def _pds_to_dict(field_data):
         LOGGER.debug("pds_field_tag=[%s]", pds_field_tag)
 
         # get the pds length
-        pds_field_length = int(field_data[field_pointer+4:field_pointer+7])
+        try:
+            pds_field_length = int(field_data[field_pointer+4:field_pointer+7])
+        except ValueError as ex:
+            raise Iso8583DataError('Invalid PDS field length', original_exception=ex)
+        if pds_field_length < 0:
+            raise Iso8583DataError('Invalid PDS field length')
         LOGGER.debug("pds_field_length=[%i]", pds_field_length)
 
         # get the pds data
